@@ -239,3 +239,28 @@ func VerifC19_T_walker_failure_ladder() {
 	sym.Assert(s1-s0 <= 40*bound, "C19.T5.failure-propagation-work-polynomial")
 	sym.Reach("C19.T.walker-failure")
 }
+
+// T6: a fully successful walk of a ladder (every node runs) stays polynomial as well: the readiness
+// check after each completion looks at direct dependencies, not at every path below them
+func VerifC19_T_walker_success_ladder() {
+	depth := 4 + sym.Choice("depth", tier(7, 9))
+	nodes, g := ladder(depth)
+	for _, n := range nodes {
+		n.Select()
+	}
+	v, e := 2*depth, 4*(depth-1)
+	bound := (v + e) * (v + e)
+	ran := 0
+	w := NewWalker(g, func(ctx context.Context, node model.BuildNode) (CacheResult, error) {
+		ran++
+		return CacheHit, nil
+	}, false)
+	s0 := sym.Steps()
+	_, err := w.Walk(context.Background())
+	sym.Quiesce()
+	s1 := sym.Steps()
+	sym.NoteInt("steps-walk", s1-s0)
+	sym.Assert(err == nil && ran == v, "C19.T6.every-node-of-the-ladder-runs")
+	sym.Assert(s1-s0 <= 40*bound, "C19.T6.successful-walk-work-polynomial")
+	sym.Reach("C19.T.walker-success")
+}
